@@ -25,4 +25,4 @@ Definition x_ag_init := ag_init.
 Definition x_K1 := K1 x_spec_is_action.
 Definition x_K2 := K2 x_spec_is_action.
 
-Extraction "model.ml" x_is_action x_mstep x_check_step x_for_layout_ok x_init x_apply_evs x_phys_after x_expected_repeat x_c08_check x_ag_step x_ag_init x_K1 x_K2.
+Extraction "model.ml" x_is_action x_spec_is_action x_mstep x_check_step x_for_layout_ok x_init x_apply_evs x_phys_after x_expected_repeat x_c08_check x_ag_step x_ag_init x_K1 x_K2.
